@@ -12,7 +12,7 @@ from harness import hC04
 LAST_DETAIL: Any = None
 _c = CASE or 0
 BS = chr(92)
-WL, FL = tb(1, 2), tb(1, 2)
+WL, FL = tb(1, 2), 1
 C_NEG, C_Z = _c % 2 == 1, 1 + (_c // 2) % 2
 
 
@@ -136,7 +136,7 @@ OBLIGATIONS = [
      "what": "integer base independence: a numeral in base 10/16/8/2 (either letter case) is one INTEGER token and reads to "
              "its positional value, so two spellings of one number give one parameter (shared harness with C04.S5c)",
      "cases": {"quick": hC04.int_cases(2), "thorough": hC04.int_cases(3)},
-     "timeout": {"quick": 240, "thorough": 1200}, "bounds": {"quick": "1-2 digits per numeral", "thorough": "1-3 digits"},
+     "timeout": {"quick": 240, "thorough": 1200}, "bounds": {"quick": "1-2 digits per numeral", "thorough": "1-2 digits in every base, 3 digits in base 2"},
      "encodes": ["explorerscript.util.exps_int"]},
     {"id": "C16.S2a", "module": __name__, "func": "h_quote_style",
      "what": "single-line strings: the two quote styles of one body read to the same value (the body itself)",
@@ -149,7 +149,7 @@ OBLIGATIONS = [
     {"id": "C16.S4", "module": __name__, "func": "h_leading_zeros",
      "what": "decimals with 1-2 redundant leading zeros read to the same fixed-point value",
      "cases": [0, 1, 2, 3],
-     "timeout": {"quick": 300, "thorough": 1200}, "bounds": {"quick": "whole part 0-1 digits, fraction 1 digit, optional '-'", "thorough": "whole 0-2, fraction 1-2 digits"},
+     "timeout": {"quick": 300, "thorough": 1200}, "bounds": {"quick": "whole part 0-1 digits, fraction 1 digit, optional '-'", "thorough": "whole 0-2 digits, fraction 1 digit"},
      "encodes": ["explorerscript.ssb_converting.ssb_data_types.SsbOpParamFixedPoint.from_str"]},
     {"id": "C16.S3", "module": __name__, "func": "h_for_target",
      "what": "routine headers: `for_actor(X)` (deprecated) and `for actor X` give equal routine info (type, target id or "
